@@ -50,7 +50,7 @@ def generate(seed: int, tier: str) -> dict:
         n_vars=wr.randint(3, 9 if tier == "quick" else 14),
         max_depth=2,
         units=UNITS if profile == "acyclic" else None,
-        wide=wide_knob(wr, tier, 0.15),
+        wide=wide_knob(wr, tier, 0.15, cap=4100),
     )
     ir = st["inputs"]
     situation = gen_situation(ir, world, max_persons=5 if tier == "quick" else 12, trailing_empty_ok=True)
